@@ -3,7 +3,7 @@
 import sys, os, shutil, json, subprocess
 pid, name, caught = sys.argv[1], sys.argv[2], sys.argv[3]
 needs = " ".join(sys.argv[4:])
-src = f"/tmp/seedwork/{pid}"
+src = f"/tmp/seedwork{os.environ.get('SEED_ROUND', '')}/{pid}"
 dst = f"/verif/seeded/{name}"
 os.makedirs(dst, exist_ok=True)
 shutil.copy(f"{src}/patch.diff", f"{dst}/patch.diff")
